@@ -24,6 +24,12 @@ func (it *Iterator) SeekToFirst() {
 	it.mu.Lock()
 	defer it.mu.Unlock()
 
+	it.seekToFirstLocked()
+}
+
+// seekToFirstLocked positions the iterator at the first key.
+// The caller must hold it.mu.
+func (it *Iterator) seekToFirstLocked() {
 	// Reset error state
 	it.err = nil
 
@@ -141,8 +147,9 @@ func (it *Iterator) Next() bool {
 	defer it.mu.Unlock()
 
 	if !it.initialized {
-		it.SeekToFirst()
-		return it.Valid()
+		// it.mu is not reentrant: use the variants that expect it to be held
+		it.seekToFirstLocked()
+		return it.validLocked()
 	}
 
 	if it.dataBlockIter == nil {
@@ -194,6 +201,12 @@ func (it *Iterator) Valid() bool {
 	it.mu.Lock()
 	defer it.mu.Unlock()
 
+	return it.validLocked()
+}
+
+// validLocked reports whether the iterator is positioned at a valid entry.
+// The caller must hold it.mu.
+func (it *Iterator) validLocked() bool {
 	return it.initialized && it.dataBlockIter != nil && it.dataBlockIter.Valid()
 }
 
